@@ -66,6 +66,8 @@ def Val.getInt32 : Val → Int
 
 /-- `bufr_value_set_int32(bv, value)` (`value` already an `int`) -/
 def Val.setInt32 (bv : Val) (v : Int) : Val :=
+  -- the parameter is an `int`
+  let v := wrapI32 v
   match bv with
   | .i32 _ => .i32 v
   | .i64 _ => .i64 v
@@ -108,6 +110,24 @@ def strPad (s : Option (List Nat)) (len : Nat) : List Nat :=
     | none => []
   let missing := cs.all (· = 255)
   cs ++ List.replicate (len - cs.length) (if missing then 255 else 32)
+
+/-- `bufr_is_missing_string(str, len)`: trailing blanks (down to one character) ignored, the rest
+all 0xFF -/
+def strIsMissing (bs : List Nat) : Bool :=
+  let rec trim : List Nat → List Nat
+    | [] => []
+    | [a] => [a]
+    | a :: rest => if a = 32 then trim rest else a :: rest
+  (trim bs.reverse).all (· = 255)
+
+/-- `bufr_value_is_missing(bv)` -/
+def Val.isMissing : Val → Bool
+  | .i32 v => v = -1
+  | .i64 v => v = -1
+  | .f32 x => fpMissingF x
+  | .f64 x => fpMissingD x
+  | .str bs => strIsMissing bs
+  | .none => true
 
 def Val.setString (bv : Val) (s : Option (List Nat)) (len : Nat) : Val :=
   match bv with
